@@ -37,6 +37,18 @@ def workload(model, proto, rng, finite, align):
         delta = rng.randint(0, 48)
         pad_len = sw.BUF - hdr_len(schema) - 3 - delta
     vals = sw.gen_values(env, ns, proto, rng, finite=finite, items=(2, 7), pad_len=pad_len)
+    if align and rng.chance(0.5):
+        # a second refill further on: lengthen one stream step so that the stream spans several staging buffers
+        sidx = [k for k, (_, _, s) in enumerate(proto.steps) if s]
+        k = rng.choice(sidx)
+        if vals[k]:
+            enc = R.Codec(env)
+            one = bytearray()
+            enc.enc(M.qualify(proto.steps[k][1], ns), vals[k][0], one)
+            reps = min(4000, max(1, (sw.BUF + rng.randint(0, 3000)) // max(1, len(one))))
+            vg = V.ValueGen(env, rng, finite_only=finite, json_safe=finite)
+            qt = M.qualify(proto.steps[k][1], ns)
+            vals[k] = vals[k] + [vg.gen(qt) for _ in range(reps)]
     return vals
 
 
@@ -104,8 +116,10 @@ def py_side(model, proto, rng, quick, stats, viols, ctx):
         stats["runs"] = stats.get("runs", 0) + 1
         # read side: any block partition, item by item
         lb = sw.LogBytesIO(data)
+        collect = r.chance(0.5)
+        stats["py_read_collect_then_inspect" if collect else "py_read_item_by_item"] = stats.get("py_read_collect_then_inspect" if collect else "py_read_item_by_item", 0) + 1
         with runner.time_limit(30):
-            d, err, closed = P.read_all(model, proto, "binary", lb)
+            d, err, closed = P.read_all(model, proto, "binary", lb, collect=collect)
         marks = set(codec.marks)
         if any(pos > 0 and pos < len(data) and pos not in marks for pos, n in lb.fills):
             stats["value_straddles_refill"] = stats.get("value_straddles_refill", 0) + 1
@@ -274,6 +288,8 @@ def model_task(task, ybin, root):
     vt = rng.choice([M.Prim("int32"), M.Prim("string"), M.Opt(M.Prim("float64")), M.Vec(M.Prim("uint16"))])
     first.steps.append(("steermap", M.Map(kt, vt), True))
     first.steps.append(("steervec", M.Vec(M.Opt(M.Map(M.Prim("string"), M.Prim("int8")))), True))
+    # items that are numeric arrays: the readers may hand out views of their staging buffer
+    first.steps.append(("steerarr", M.Arr(M.Prim(rng.choice(["float32", "int16", "float64", "complexfloat32"])), rng.choice([None, 1, 2, ((None, 3),)])), True))
     model = P.PyModel(pkg, ybin, root, want_cpp=want_cpp, cpp_opts=C.CPP_OPTS)
     stats, viols, cases = {"models_with_cpp": 1 if want_cpp else 0}, [], []
     try:
